@@ -307,7 +307,26 @@ where $($args: Getable<'vm, 'vm> + 'vm,)*
             lock = stack.into_lock();
 
             drop(context);
-            let r = (*self)($($args),*);
+            // A panic in the called function must not unwind into the `extern "C"` function which
+            // called us (that aborts the process), report it as an error of the running program
+            let r = match ::std::panic::catch_unwind(::std::panic::AssertUnwindSafe(|| {
+                (*self)($($args),*)
+            })) {
+                Ok(r) => r,
+                Err(payload) => {
+                    let msg = match payload.downcast_ref::<String>() {
+                        Some(msg) => msg.clone(),
+                        None => match payload.downcast_ref::<&str>() {
+                            Some(msg) => msg.to_string(),
+                            None => "A primitive function panicked".to_string(),
+                        },
+                    };
+                    let mut context = vm.current_context();
+                    context.stack().release_lock(lock);
+                    let _ = msg.vm_push(&mut context);
+                    return Status::Error;
+                }
+            };
             context = vm.current_context();
             r
         };
